@@ -640,7 +640,6 @@ def case_shared(ctx, c, classes):
     built = []          # (population index, problem, encoding, definition, U, tolK, label)
     last = None
     coords = [c, "shared"]
-    twopop = "/two populations of equal shape interleaved" if len(pops) > 1 else ""
     for step in range(int(g.integers(5, 13))):
         pi = int(g.integers(len(pops))); P = pops[pi]
         if last is not None and g.random() < 0.35:
@@ -676,7 +675,7 @@ def case_shared(ctx, c, classes):
                 ok = near(got, truth)[0]
                 w = dict(w, attribute=an, attribute_got=got, attribute_expected=truth)
             ctx.check("C05.factory", ok, site, "problem holds the population's data in the population's taxon order",
-                      "%s encoding/population objects shared by several problems%s%s" % (enc, ucls, twopop), witness=dict(w, **{"class": cname, "step": step, "bvmat built by": P.bvform}), coords=coords)
+                      "%s encoding/population objects shared by several problems%s" % (enc, ucls), witness=dict(w, **{"class": cname, "step": step, "bvmat built by": P.bvform, "populations in the case": len(pops)}), coords=coords)
             stop = stop or not ok
         except Exception as e:
             ctx.raised(site + ".latentfn (shared population objects)", e)
@@ -689,7 +688,7 @@ def case_shared(ctx, c, classes):
             except Exception as e:
                 ctx.raised(label + ".latentfn (after later factory calls)", e); continue
             ctx.check("C05.shared", ok, site, "problems built earlier from the same population objects still hold the population's data after this factory call",
-                      "population objects shared by several problems%s%s" % (ucls, twopop), witness=dict(w, earlier_problem=label, earlier_unscale=Uj, later_call=site, step=step), coords=coords)
+                      "population objects shared by several problems%s" % ucls, witness=dict(w, earlier_problem=label, earlier_unscale=Uj, later_call=site, step=step, populations_in_the_case=len(pops)), coords=coords)
             if not ok:
                 built[j] = (pj, None, en, df, Uj, tk, label); stop = True
         built.append((pi, prob, enc, defn, U, tolK, site))
